@@ -169,9 +169,31 @@ type replayOutcome struct {
 }
 
 type replayer struct {
-	bin    string
-	tmpdir string
-	buildS float64
+	bin     string
+	raceBin string
+	useRace bool
+	tmpdir  string
+	buildS  float64
+}
+
+// withRace returns a replayer view that runs the race-detector build
+// (built on first use) with halt_on_error: a reported data race kills the run.
+func (r *replayer) withRace() *replayer {
+	if r.raceBin == "" {
+		r.raceBin = filepath.Join(r.tmpdir, "replay-race")
+		start := time.Now()
+		cmd := exec.Command("go", "build", "-race", "-o", r.raceBin, "./cmd/replay")
+		cmd.Dir = harnessDir
+		cmd.Env = goEnv()
+		if out, err := cmd.CombinedOutput(); err != nil {
+			fatal(2, "race build of the harness module failed:\n%s", out)
+		}
+		r.buildS += time.Since(start).Seconds()
+	}
+	cp := *r
+	cp.bin = r.raceBin
+	cp.useRace = true
+	return &cp
 }
 
 func newReplayer() *replayer {
@@ -227,6 +249,9 @@ func (r *replayer) runBatch(harness string, params map[string]int, vectors [][][
 	cmd.Stdout = &stdout
 	cmd.Stderr = &stderr
 	cmd.Env = append(os.Environ(), "GOTRACEBACK=single")
+	if r.useRace {
+		cmd.Env = append(cmd.Env, "GORACE=halt_on_error=1")
+	}
 	if err := cmd.Start(); err != nil {
 		return nil, false
 	}
@@ -560,7 +585,13 @@ func cmdCheck(args []string) {
 			}
 		}
 		if len(vvecs) > 0 {
-			outs := rp.run(name, params, vvecs, 60*time.Second)
+			vrp := rp
+			if strings.HasPrefix(name, "C14_") {
+				// the store the engine saw becomes observable natively as a data race
+				vrp = rp.withRace()
+				rp.raceBin = vrp.raceBin
+			}
+			outs := vrp.run(name, params, vvecs, 120*time.Second)
 			for i, o := range outs {
 				v := vrefs[i].v
 				reproduced := o.Result == "violation" || o.Result == "panic" || o.Result == "crash"
